@@ -26,6 +26,8 @@
 #include <iomanip>
 #include <algorithm>
 #include <functional>
+#include <memory>
+#include <array>
 #include <limits>
 #include <unistd.h>
 #include <fcntl.h>
